@@ -94,6 +94,17 @@ ExecStmt(s, st, c, fuel) ==
                                                       IN [k \in 1..Len(o) |-> VStr(o[k])]
                           r == ForInLoop(s, items, 1, PushS(it.st), c, fuel, kd = "str")
                       IN IF r.out \in {"error", "diverge"} THEN r ELSE [r EXCEPT !.st = PopS(r.st, 2)]
+    [] LeadUse(s).is /\ ~c.v2 /\ LeadUse(s).name \in DOMAIN c.prog ->
+         \* the callee first (same point and heap, fresh variables), then the statement itself with "no value" for the call
+         LET lu == LeadUse(s)
+             inner == ExecList(c.prog[lu.name], 1, [st EXCEPT !.sc = <<EmptyScope>>, !.pend = "", !.xt = FALSE],
+                               [c EXCEPT !.name = lu.name], fuel)
+         IN IF inner.out = "diverge" THEN inner
+            ELSE IF inner.out = "error" THEN [inner EXCEPT !.chain = @ \o RepeatP(<<c.name, s.sid>>, 1 + lu.wrap)]
+            ELSE LET r == Eval(s, [inner.st EXCEPT !.sc = st.sc, !.xt = st.xt, !.pend = ""]) IN
+                 IF ~r.ok THEN Failed(r.st, r.cls, c.name, s.sid, inner.fuel)
+                 ELSE IF r.st.xt THEN BRes([r.st EXCEPT !.pend = ""], "exit", "", <<>>, inner.fuel)
+                 ELSE Norm([r.st EXCEPT !.pend = ""], inner.fuel)
     [] OTHER ->
          LET r == IF DirectUse(s) THEN Eval(s, st) ELSE NoPend(Eval(s, st)) IN
          IF ~r.ok THEN Failed(r.st, r.cls, c.name, s.sid, fuel)
